@@ -21,7 +21,13 @@ fn ref_times(p: u64) -> Vec<u64> {
     v
 }
 
-/// support level: 0 none, 1 ref only, 2 32 bit, 3 64 bit. sync: 0 disabled, 1 sync0, 2 sync0+1
+/// support level: 0 none, 1 ref only, 2 32 bit, 3 64 bit; 4 and 5: no DC ('DC supported' flag of
+/// register 0x0008 clear), but the 'enhanced DC sync' resp. the '64 bit' flag is set nevertheless.
+/// sync: 0 disabled, 1 sync0, 2 sync0+1
+fn has_dc(sup: u8) -> bool {
+    (1..=3).contains(&sup)
+}
+
 #[derive(Clone, Debug)]
 struct Setup {
     support: Vec<u8>,
@@ -36,9 +42,9 @@ fn make_net(s: &Setup) -> Net {
     let mut devs = Vec::new();
     for (i, sup) in s.support.iter().enumerate() {
         let mut d = Device::new(simple_io(0x6000 + i as u32, &[8], &[8]).image());
-        d.dc.supported = *sup > 0;
-        d.dc.enhanced = *sup > 1;
-        d.dc.bits64 = *sup == 3;
+        d.dc.supported = has_dc(*sup);
+        d.dc.enhanced = *sup == 2 || *sup == 3 || *sup == 4;
+        d.dc.bits64 = *sup == 3 || *sup == 5;
         d.dc.systime_override = Some(s.ref_time);
         devs.push(d);
     }
@@ -88,7 +94,7 @@ fn run_setup(acc: &mut Acc, s: &Setup, cycle_times: &[u64]) {
         d.writes.clear();
     }
     let r = net.run(async move { g.configure_dc_sync(md, conf).await });
-    let has_ref = s.support.iter().any(|x| *x > 0);
+    let has_ref = s.support.iter().any(|x| has_dc(*x));
     let in_range = s.period <= u64::from(u32::MAX) && s.delay <= u64::from(u32::MAX);
     let g = match r {
         Ok(Ok(g)) => {
@@ -129,7 +135,7 @@ fn run_setup(acc: &mut Acc, s: &Setup, cycle_times: &[u64]) {
         let seg = net.seg.borrow();
         for i in 0..n {
             let d = &seg.devices[i];
-            let wants = s.support[i] > 0 && s.sync[i] > 0;
+            let wants = has_dc(s.support[i]) && s.sync[i] > 0;
             let dc_writes: Vec<&crate::sim::WriteRec> = d.writes.iter().filter(|w| (0x0980..0x09b0).contains(&w.addr)).collect();
             if !wants {
                 if !dc_writes.is_empty() {
@@ -224,14 +230,14 @@ pub fn enumerate(thorough: bool) -> Acc {
     // (A) every support x sync assignment for 1..=N devices, fixed valid timing
     let nmax = if thorough { 4 } else { 3 };
     for n in 1..=nmax {
-        let combos = 12usize.pow(n as u32);
+        let combos = 18usize.pow(n as u32);
         for c in 0..combos {
             let mut support = Vec::new();
             let mut sync = Vec::new();
             let mut x = c;
             for _ in 0..n {
-                support.push((x % 4) as u8);
-                x /= 4;
+                support.push((x % 6) as u8);
+                x /= 6;
                 sync.push((x % 3) as u8);
                 x /= 3;
             }
@@ -265,7 +271,7 @@ pub fn c18(tier: &Tier, child: bool) -> Result<i32, String> {
         return Ok(0);
     }
     let mut rep = Report::new("C18", "exploration", tier);
-    rep.rule = "(A) every assignment of DC support level {none, reference only, 32 bit, 64 bit} x DcSync {disabled, SYNC0, SYNC0+SYNC1} to groups of 1..=3 SubDevices (4 in the thorough tier), including networks without any reference clock; (B) SYNC0 period and start delay from {1, 2, 999, 1000, 2^31, 2^32-1, 2^32, 2^32+1} ns, shift from {1, 1000, 2^32-1, 2^32} ns, reference times from {0, 1, p-1, p, p+1, 2^32, 2^63, u64::MAX-2^32, u64::MAX-1, u64::MAX, multiples of p near u64::MAX}; the oracle reads the simulator's register write log and recomputes start time, cycle offset and wait in 128-bit arithmetic; every reference time is also used as the per-cycle time of tx_rx_dc; with and without overflow checks; non-trivial = every configuration and every cycle".into();
+    rep.rule = "(A) every assignment of DC support level {none, reference only, 32 bit, 64 bit, no DC with the enhanced-sync flag set, no DC with the 64-bit flag set} x DcSync {disabled, SYNC0, SYNC0+SYNC1} to groups of 1..=3 SubDevices (4 in the thorough tier), including networks without any reference clock; (B) SYNC0 period and start delay from {1, 2, 999, 1000, 2^31, 2^32-1, 2^32, 2^32+1} ns, shift from {1, 1000, 2^32-1, 2^32} ns, reference times from {0, 1, p-1, p, p+1, 2^32, 2^63, u64::MAX-2^32, u64::MAX-1, u64::MAX, multiples of p near u64::MAX}; the oracle reads the simulator's register write log and recomputes start time, cycle offset and wait in 128-bit arithmetic; every reference time is also used as the per-cycle time of tx_rx_dc; with and without overflow checks; non-trivial = every configuration and every cycle".into();
     rep.assumptions = vec![
         "the simulated reference clock returns exactly the chosen time on every read of the system time register".into(),
         "period 0 is outside the quantifier".into(),
